@@ -2,8 +2,12 @@ import OH.Proofs.SentRule4
 /-
 C05, assembly, part 5: `rule_sequence = { !(space? ~ (any_rule_separator | EOI)) ~ selector_sequence
   ~ space? ~ rules_modifier? }` on one rendered rule `SRule.render r`, in front of the end of the text or
-of a separator in any of its six spellings.  The pair is built into `r.denote op` for whatever
-operator it is given.
+of a separator in any of its six spellings (`Next`: what comes after the rule is given as DATA, the
+separator word and the text after it, so that no text has to be cut back into its parts).  The pair is
+built into `r.denote op` for whatever operator it is given.  Who consumes the space of ` ; ` / ` || `:
+ * after a modifier: nobody before the separator — `any_rule_separator` reads it with its own `space?`;
+ * after selectors without modifier: the `space?` of `rule_sequence` or `separator_for_readability?`
+   (SentRule4), and the separator is then read WITHOUT its leading space (`AfterRuleS`, `run_sepS`).
 -/
 namespace OH.Proofs.Sent
 open OH.Model OH.Model.Peg OH.Model.Parser OH.Generated.Grammar OH.Proofs.Syn OH.Proofs.Syn.Wide
